@@ -5,6 +5,7 @@ import OV.Model.C08Reduce
 import OV.Model.C08IntArith
 import OV.Model.C08Creation
 import OV.Model.C08Attr
+import OV.Model.C08Misc
 import OV.Drivers.Loop
 /-! Line-protocol driver for C08.  `C08 <fn> <args…>` → `term @ model @ spec`.
     shape: `2,3` (`-` = rank 0); shape list: `2,3/2,1`; int list: `1,2` (`-` = empty); `N` = None. -/
@@ -244,6 +245,24 @@ def handle (args : List String) : String :=
   | ["im2col", s, k, dl, pd, st] => (do
       let s ← pShape s; let k ← pInts k; let dl ← pInts dl; let pd ← pInts pd; let st ← pInts st
       pure (out (im2col.term k dl pd st) (rS (im2col.model s k dl pd st)) (rS (im2col.spec s k dl pd st)))).getD bad
+  | ["gather", s, ix, d, _] => (do
+      let s ← pShape s; let ix ← pShape ix; let d ← pInt d
+      pure (out (gather.term s.length ix.length d) (rS (gather.model s ix d)) (rS (gather.spec s ix d)))).getD bad
+  | ["repeat_interleave", s, rp, d, _] => (do
+      let s ← pShape s; let rp ← pInt rp; let d ← pOptInt d
+      pure (out (repeat_interleave.term s.length rp d) (rS (repeat_interleave.model s rp d)) (rS (repeat_interleave.spec s rp d)))).getD bad
+  | ["select_scatter", s, src, d, i] => (do
+      let s ← pShape s; let src ← pShape src; let d ← pInt d; let i ← pInt i
+      pure (out (select_scatter.term d i) (rS (select_scatter.model s src d i)) (rS (select_scatter.spec s src d i)))).getD bad
+  | ["slice_scatter", s, src, d, a, b, c] => (do
+      let s ← pShape s; let src ← pShape src; let d ← pInt d; let a ← pOptInt a; let b ← pOptInt b; let c ← pInt c
+      pure (out (slice_scatter.term s.length d a b c) (rS (slice_scatter.model s src d a b c)) (rS (slice_scatter.spec s src d a b c)))).getD bad
+  | ["atleast", n, s] => (do
+      let n ← pInt n; let s ← pShape s
+      pure (out (atleast.term n.toNat s.length) (rS (atleast.model n.toNat s)) (rS (atleast.spec n.toNat s)))).getD bad
+  | ["topk", s, k, d, lg, so] => (do
+      let s ← pShape s; let k ← pInt k; let d ← pInt d; let lg ← pBool lg; let so ← pBool so
+      pure (out (topk.term k d lg so) (rL (topk.model s k d)) (rL (topk.spec s k d)))).getD bad
   -- creation
   | ["linspace", n] => (do
       let n ← pInt n
